@@ -54,7 +54,9 @@ CHECKS["C03"] = {
             "random), bit-flipped honest signatures, sparse random bodies. distinct_nontrivial = distinct (variant, decoder, "
             "mutation family, outcome) cells + distinct (variant, public key, cursor cell) cells.",
     "assumptions": ["a panic is the only failure mode of safe Rust here (no unsafe in the crate); allocation failure is not exercised"],
-    "legs": [{"name": "decoders", "profiles": BOTH}, {"name": "verify-hostile", "profiles": BOTH}],
+    "legs": [{"name": "decoders", "profiles": BOTH}, {"name": "verify-hostile", "profiles": BOTH},
+             {"name": "miri-decode", "external": "miri", "tiers": ["thorough"], "shards": [["decode", i, 16] for i in range(16)]},
+             {"name": "fuzz", "external": "fuzz", "tiers": ["thorough"], "seconds": 180}],
     "technique": "panic monitor (sanitizer for safe Rust) over structure-aware hostile inputs on release and overflow-checked builds; Miri leg in the thorough tier",
     "level_text": "Executions of the real decoders and verifier on hostile inputs under a panic monitor in two build profiles; "
                   "every guard of the decompressor is made the only thing between the input and an out-of-range index at least once.",
@@ -152,8 +154,9 @@ CHECKS["C01"] = {
             "whose execution took at least one retry branch + native chunks and natural retries + thread configurations.",
     "assumptions": ["reference verifier (self-tested)", "scripted randomness steers by the current 40+32+17-per-iteration draw pattern; if the pattern changes the required branch counters drop to zero and the run is inconclusive, not a violation"],
     "legs": [{"name": "matrix"}, {"name": "native"}, {"name": "concurrent"},
-             {"name": "tsan", "external": "tsan", "tiers": ["thorough"]},
-             {"name": "miri-sign", "external": "miri", "tiers": ["thorough"]}],
+             {"name": "tsan", "external": "tsan", "tiers": ["thorough"], "sublegs": [["C01", "concurrent"]], "scale": "20"},
+             {"name": "miri-sign", "external": "miri", "tiers": ["thorough"],
+              "shards": [["sign", 2, 1], ["sign", 2, 2], ["sign", 2, 3], ["sign", 3, 4]]}],
     "technique": "end-to-end oracle (crate verify + reference verifier) over executions steered by scripted randomness and failpoints at hooks, branch-coverage events, concurrency stress with overlap evidence; ThreadSanitizer and Miri legs in the thorough tier",
     "level_text": "Executions of the real signer over hostile randomness, forced retry branches and shared-key concurrency, each checked by two verifiers.",
     "level_note": "sampler outcomes not reachable by the strategies and unbounded thread counts are not covered",
